@@ -185,14 +185,23 @@ func oracleXRefTable(es []pdf.VerifFIOEntry, nextRef uint32) (bool, string, []by
 			return true, "", out
 		}
 	}
-	if err != nil {
-		return false, "writeXRefTable failed: " + err.Error(), out
-	}
 	narrow := true
 	for _, e := range es {
-		if e.Pos > 9999999999 {
+		if e.Pos > 9999999999 && e.InStream == 0 {
 			narrow = false
 		}
+	}
+	if !narrow {
+		// An entry has exactly ten digits for the offset: an object at byte 10^10
+		// or later cannot be recorded (fmt's %010d is a minimum width and would
+		// make the line 21 bytes long).  The writer must refuse.
+		if err == nil {
+			return false, "offset-overflow: writeXRefTable wrote an entry for an offset above 9999999999 (a line of more than 20 bytes)", out
+		}
+		return true, "", out
+	}
+	if err != nil {
+		return false, "writeXRefTable failed: " + err.Error(), out
 	}
 	idx := bytes.Index(out, []byte("trailer\n"))
 	if idx < 0 {
@@ -213,13 +222,6 @@ func oracleXRefTable(es []pdf.VerifFIOEntry, nextRef uint32) (bool, string, []by
 				return false, fmt.Sprintf("malformed line %q", l), out
 			}
 		}
-	}
-	if !narrow {
-		// An offset of more than ten digits makes the line longer than 20
-		// bytes (fmt's %010d is a minimum width); such a table cannot be read
-		// back.  Files of 10^10 bytes are outside the harness; the case is
-		// kept for the byte comparison with the model and noted in notes/C02.md.
-		return true, "", out
 	}
 	got, trailer, _, err := pdf.VerifReadXRefTable(nil, out)
 	if err != nil {
@@ -350,6 +352,10 @@ func oracleXRefStream(es []pdf.VerifFIOEntry, nextRef uint32) (bool, string, *fi
 		case e.Pos < 0 && e.InStream == 0:
 			if ok && g.Pos >= 0 {
 				return false, fmt.Sprintf("free entry %d decoded as in use: %+v", e.Num, g), info
+			}
+			if ok && g.Gen != e.Gen {
+				// the third field of a free entry is its generation number (65535 for object 0)
+				return false, fmt.Sprintf("free-generation: free entry %d with generation %d is written as generation %d; W=%v", e.Num, e.Gen, g.Gen, info.w), info
 			}
 		case e.InStream == 0 || e.Pos >= 0:
 			// in use (a compressed entry with negative index cannot be produced by the writer)
@@ -486,7 +492,11 @@ func runFIOXRef(c *Ctx) {
 			c.Stat("xref_table_cases")
 			ok, msg, out := oracleXRefTable(es, uint32(nextRef))
 			if !ok {
-				c.Violate("xref-table-rt", "xref-table-rt", msg, key)
+				vkey := "xref-table-rt"
+				if strings.HasPrefix(msg, "offset-overflow:") {
+					vkey = "xref-table-offset-overflow"
+				}
+				c.Violate("xref-table-rt", vkey, msg, key)
 			}
 			// model encoder must produce the same bytes
 			res := "err"
@@ -508,7 +518,11 @@ func runFIOXRef(c *Ctx) {
 			c.Stat("xref_stream_cases")
 			ok, msg, info := oracleXRefStream(es, uint32(nextRef))
 			if !ok {
-				c.Violate("xref-stream-rt", "xref-stream-rt", msg, key)
+				vkey := "xref-stream-rt"
+				if strings.HasPrefix(msg, "free-generation:") {
+					vkey = "xref-stream-object0-generation"
+				}
+				c.Violate("xref-stream-rt", vkey, msg, key)
 			}
 			if info == nil || info.w == nil {
 				continue
